@@ -14,7 +14,10 @@
            (which is also the key of a statement that starts with the function);
      fixD  `throw e` records may_throw whatever `e` is (the Rust relies on visit_expr,
            which does not record it for an identifier / `this`: `try { throw e } catch {}`
-           then looks like a try block that cannot throw).
+           then looks like a try block that cannot throw);
+     fixE  the head (`left`) of a for-in / for-of statement is visited (the Rust visited only `right`
+           and the body, so a function-like in a default value of the loop's binding pattern had no
+           entries in the result and getter-return's `.meta(..).unwrap()` panicked).
    The two `unwrap`s of the Rust (`merge_forced(..).unwrap()`, `end_reason.unwrap()`)
    are explicit: they set the `panic` flag (theorem `analyzer_total`: never). *)
 From V Require Export CF.Syntax.
@@ -38,11 +41,11 @@ Definition forced_return := Forced true false false.
 Definition forced_throw := Forced false true false.
 Definition forced_inf := Forced false false true.
 
-Record fixes := { fixA : bool; fixB : bool; fixC : bool; fixD : bool }.
-Definition faithful := {| fixA := false; fixB := false; fixC := false; fixD := false |}.
-Definition repaired := {| fixA := true; fixB := true; fixC := true; fixD := true |}.
-(* the code as it is after the `fix:` commits for A, B and D (class C is a known finding) *)
-Definition current := {| fixA := true; fixB := true; fixC := false; fixD := true |}.
+Record fixes := { fixA : bool; fixB : bool; fixC : bool; fixD : bool; fixE : bool }.
+Definition faithful := {| fixA := false; fixB := false; fixC := false; fixD := false; fixE := false |}.
+Definition repaired := {| fixA := true; fixB := true; fixC := true; fixD := true; fixE := true |}.
+(* the code as it is after the `fix:` commits for A, B, D and E (class C is a known finding) *)
+Definition current := {| fixA := true; fixB := true; fixC := false; fixD := true; fixE := true |}.
 
 Record scope := {
   s_end : option End;              (* Scope::end *)
@@ -310,6 +313,15 @@ Definition with_child (k : kind) (start : N) (op : st -> st) (x : st) : st :=
 Definition visit_fn_like (p pb : N) (body : st -> st) (x : st) : st :=
   with_child KFunction p (fun a => block_end pb (body a)) x.
 
+(* a function-like in expression position (`{get a() {..}}` in an object literal, an arrow function as a
+   default value): the function, then `visit_expr` of the enclosing expression(s) *)
+Definition visit_fn_expr (fp pb : N) (body : st -> st) (x : st) : st :=
+  visit_lit (visit_fn_like fp pb body x).
+
+(* fn visit_for_of_stmt / visit_for_in_stmt, `n.left.visit_with(self)` *)
+Definition visit_for_head (fp pb : N) (hbody : st -> st) (x : st) : st :=
+  if fixE fx then visit_fn_expr fp pb hbody x else x.
+
 Definition visit_return (p : N) (arg : option expr) (x : st) : st :=
   mark_as_end p forced_return (match arg with Some e => visit_e e x | None => x end).
 
@@ -415,6 +427,7 @@ Fixpoint an (s : stmt) (x0 : st) {struct s} : st :=
   | SVar p isv init => match init with Some e => visit_e e x | None => x end
   | SFnDecl p name pb body => visit_fn_like p pb (an_list body) x
   | SArrowStmt p pb body => visit_lit (visit_fn_like p pb (an_list body) x)
+  | SGetterStmt p gp pb body => visit_fn_expr gp pb (an_list body) x
   | SRet p arg => visit_return p arg x
   | SThrow p e => visit_throw p e x
   | SBrk p l => visit_break l x
@@ -427,6 +440,7 @@ Fixpoint an (s : stmt) (x0 : st) {struct s} : st :=
   | SDoWhile p b c => visit_do_while p c (pos b) (an b) x
   | SFor p c b => visit_for p c (pos b) (an b) x
   | SForIn p b | SForOf p b => visit_for_in (pos b) (an b) x
+  | SForHead p _ fp pb hb b => visit_for_in (pos b) (an b) (visit_for_head fp pb (an_list hb) x)
   | SSwitch p cs => visit_switch p cs (an_cases cs) x
   | SLabel p l b => with_child (KLabel l) p (fun a => orb_mark b (an b a)) x
   | STry p bp blk h hb f fb => visit_try p bp (an_list blk) h (an_list hb) f (an_list fb) x
@@ -459,7 +473,8 @@ Definition continues_execution (m : meta) : bool := live (m_end m).
 (* all statements, at any depth, nested function bodies included *)
 Fixpoint all_stmts (s : stmt) : list stmt :=
   s :: match s with
-       | SFnDecl _ _ _ b | SArrowStmt _ _ b | SBlock _ b => all_stmts_l b
+       | SFnDecl _ _ _ b | SArrowStmt _ _ b | SGetterStmt _ _ _ b | SBlock _ b => all_stmts_l b
+       | SForHead _ _ _ _ hb b => all_stmts_l hb ++ all_stmts b
        | SIf _ _ a => all_stmts a
        | SIfElse _ _ a b => all_stmts a ++ all_stmts b
        | SWhile _ _ b | SDoWhile _ b _ | SFor _ _ b | SForIn _ b | SForOf _ b | SLabel _ _ b => all_stmts b
@@ -494,7 +509,8 @@ Fixpoint bare_returns (s : stmt) : list N :=
   | SBlock _ b => bare_returns_l b
   | SIf _ _ a => bare_returns a
   | SIfElse _ _ a b => bare_returns a ++ bare_returns b
-  | SWhile _ _ b | SDoWhile _ b _ | SFor _ _ b | SForIn _ b | SForOf _ b | SLabel _ _ b => bare_returns b
+  | SWhile _ _ b | SDoWhile _ b _ | SFor _ _ b | SForIn _ b | SForOf _ b | SLabel _ _ b
+  | SForHead _ _ _ _ _ b => bare_returns b
   | SSwitch _ cs => bare_returns_c cs
   | STry _ _ blk _ hb _ fb => bare_returns_l blk ++ bare_returns_l hb ++ bare_returns_l fb
   | _ => []
@@ -504,15 +520,42 @@ with bare_returns_l (l : stmts) : list N :=
 with bare_returns_c (cs : cases) : list N :=
   match cs with CNil => [] | CCons _ _ _ b r => bare_returns_l b ++ bare_returns_c r end.
 
-(* `.meta(body.start).unwrap().continues_execution()`; a missing entry is the third
-   unwrap (theorem analyzer_total: the entry exists) *)
-Definition getter_body_continues (i : imap) (p : program) : bool :=
-  match iget i (p_pb p) with Some m => continues_execution m | None => true end.
+(* the getters nested in a statement, at any depth: (start of the GetterProp, `{` of its body, body) *)
+Fixpoint getters (s : stmt) : list (N * N * stmts) :=
+  match s with
+  | SGetterStmt _ gp pb b => (gp, pb, b) :: getters_l b
+  | SForHead _ g fp pb hb b => (if g then [(fp, pb, hb)] else []) ++ getters_l hb ++ getters b
+  | SFnDecl _ _ _ b | SArrowStmt _ _ b | SBlock _ b => getters_l b
+  | SIf _ _ a => getters a
+  | SIfElse _ _ a b => getters a ++ getters b
+  | SWhile _ _ b | SDoWhile _ b _ | SFor _ _ b | SForIn _ b | SForOf _ b | SLabel _ _ b => getters b
+  | SSwitch _ cs => getters_c cs
+  | STry _ _ blk _ hb _ fb => getters_l blk ++ getters_l hb ++ getters_l fb
+  | _ => []
+  end
+with getters_l (l : stmts) : list (N * N * stmts) :=
+  match l with SNil => [] | SCons s r => getters s ++ getters_l r end
+with getters_c (cs : cases) : list (N * N * stmts) :=
+  match cs with CNil => [] | CCons _ _ _ b r => getters_l b ++ getters_c r end.
 
-Definition getter_return_on (i : imap) (p : program) : list N :=
-  if p_getter p then
-    (if getter_body_continues i p then [p_start p] else []) ++ bare_returns_l (p_body p)
-  else [].
+(* all getters that getter-return checks: the program's own one and the nested ones *)
+Definition all_getters (p : program) : list (N * N * stmts) :=
+  (if p_getter p then [(p_start p, p_pb p, p_body p)] else []) ++ getters_l (p_body p).
+
+(* fn check_getter: `.meta(body.start).unwrap().continues_execution()`; a missing entry is the
+   third kind of `unwrap` - it PANICS (`getter_return_panics`; theorem `every_queried_key_present`:
+   never for the current code) *)
+Definition getter_entry_continues (i : imap) (pb : N) : bool :=
+  match iget i pb with Some m => continues_execution m | None => true end.
+Definition getter_body_continues (i : imap) (p : program) : bool := getter_entry_continues i (p_pb p).
+
+Definition getter_diags (i : imap) (g : N * N * stmts) : list N :=
+  (if getter_entry_continues i (snd (fst g)) then [fst (fst g)] else []) ++ bare_returns_l (snd g).
+
+Definition getter_return_on (i : imap) (p : program) : list N := flat_map (getter_diags i) (all_getters p).
+
+Definition getter_return_panics_on (i : imap) (p : program) : bool :=
+  existsb (fun g => match iget i (snd (fst g)) with None => true | Some _ => false end) (all_getters p).
 
 (* rules/no_fallthrough.rs, fn visit_switch_cases: one switch *)
 Fixpoint any_stops (i : imap) (l : stmts) : bool :=
@@ -545,3 +588,4 @@ Definition no_fallthrough_on (i : imap) (p : program) : list N :=
 Definition no_unreachable (fx : fixes) (p : program) := no_unreachable_on (analyze fx p) p.
 Definition getter_return (fx : fixes) (p : program) := getter_return_on (analyze fx p) p.
 Definition no_fallthrough (fx : fixes) (p : program) := no_fallthrough_on (analyze fx p) p.
+Definition getter_return_panics (fx : fixes) (p : program) := getter_return_panics_on (analyze fx p) p.
